@@ -79,6 +79,26 @@ def sched_point(ip, what):
 def install(ctx):
     M = ctx.models
 
+    @M.reg('AtomicBool::new', 'AtomicU64::new', 'AtomicUsize::new', 'AtomicU32::new', 'Atomic::new')
+    def atomic_new(ip, pc, args, dt):
+        ip.path.counter += 1
+        return AtomicM('atomic#%d' % ip.path.counter, Cell(args[0], 'atomic'))
+
+    @M.reg('AtomicBool::load')
+    def atomic_bool_load(ip, pc, args, dt):
+        a = read_loc(args[0].loc)
+        yield from sched_point(ip, 'load ' + a.name)
+        return a.cell.v
+
+    @M.reg('AtomicBool::store', 'AtomicU64::store', 'AtomicUsize::store', 'Atomic::store', 'AtomicBool::swap', 'AtomicU64::swap')
+    def atomic_store(ip, pc, args, dt):
+        a = read_loc(args[0].loc)
+        yield from sched_point(ip, pc['method'] + ' ' + a.name)
+        touch(ip.path, 'atomic-write', a.name)
+        old = a.cell.v
+        a.cell.v = args[1]
+        return old if pc['method'] == 'swap' else UNIT
+
     @M.reg('Atomic::load', 'AtomicU64::load', 'AtomicUsize::load')
     def atomic_load(ip, pc, args, dt):
         a = read_loc(args[0].loc)
